@@ -13,6 +13,7 @@ an E2 obligation (vp.symreal): every insertion order of the setmap gives the sam
 
 from __future__ import annotations
 
+import copy
 import itertools
 from collections import Counter, defaultdict
 
@@ -469,6 +470,93 @@ def h_dup(eo: int, so: int) -> bool:
     return why is None
 
 
+# --------------------------------------------------------------------------
+# modes/: the compiler emulation keeps the active modes and passes in sets; two modes that define the same macro (or add
+# include directories holding the same header) make the order in which they are applied observable
+
+MODES_DEFN = {
+    "parser": [
+        {"flags": ["-ma"], "action": "append_const", "dest": "modes", "const": "ma"},
+        {"flags": ["-mb"], "action": "append_const", "dest": "modes", "const": "mb"},
+        {"flags": ["-mc"], "action": "append_const", "dest": "modes", "const": "mc"},
+        {"flags": ["-fpass"], "action": "store_split", "sep": ",", "format": "p_$value", "dest": "passes"},
+    ],
+    "modes": [
+        {"name": "ma", "defines": ["X=1"], "include_paths": ["/r/ia"]},
+        {"name": "mb", "defines": ["X=2"], "include_paths": ["/r/ib"]},
+        {"name": "mc", "defines": ["X=3"]},
+    ],
+    "passes": [
+        {"name": "p_u", "defines": ["PU"], "modes": ["mb", "ma"]},
+        {"name": "p_v", "defines": ["PV"], "modes": ["mc", "ma"]},
+    ],
+}
+MODES_ARGV = [["-ma", "-mb", "k.c"], ["-mb", "-ma", "-mc", "k.c"], ["-mc", "-ma", "-fpass=u,v", "k.c"], ["-ma", "-mb", "-ma", "-fpass=v", "k.c"]]
+MODES_FILES = {
+    "/r/k.c": ["#include <h.h>", "#if X == 1", "@", "#elif X == 2", "@", "#elif X == 3", "@", "#else", "@", "#endif", "#ifdef IA", "@", "#endif",
+               "#ifdef IB", "@", "#endif", "#ifdef PU", "@", "#endif"],
+    "/r/ia/h.h": ["#define IA", "@"],
+    "/r/ib/h.h": ["#define IB", "@"],
+}
+
+
+def _modes_result(argv, set_order):
+    import codebasin.config as config
+    from vp.harness import c12
+
+    ORDER[0] = set_order
+    table = {"cc": config._Compiler.from_toml(copy.deepcopy(MODES_DEFN))}
+    old = getattr(config, "set", None)
+    config.set = PermSet
+    try:
+        cfgs, rec = c12._run(config, table, "cc", argv)
+    finally:
+        if old is None:
+            del config.set
+        else:
+            config.set = old
+    ORDER[0] = 0
+    # observable result: every pass becomes one compile command of a platform named after the pass, plus one platform
+    # that has all of them in the order parse_args returned them
+    conf = {"all": []}
+    for c in cfgs:
+        e = scen.entry("/r/k.c", c.defines, c.include_paths, c.include_files)
+        conf.setdefault("pass:" + c.pass_name, []).append(e)
+        conf["all"].append(e)
+    fs = scen.build_fs(MODES_FILES)
+    state, _ = scen.run_cbi(fs, conf, sorted(MODES_FILES))
+    attr, dup = scen.attribution(state)
+    return {p: frozenset(v) for p, v in attr.items()}, sorted(c.pass_name for c in cfgs)
+
+
+def h_modes(so: int) -> bool:
+    """
+    pre: 0 <= so < 24
+    post: _
+    """
+    idx = None
+    for k in range(24):
+        if so == k:
+            idx = k
+    STATS["compared"] += 1
+    if P.get("_twin"):
+        return False
+    why = None
+    with scen.untraced():
+        argv = MODES_ARGV[P["argv"]]
+        try:
+            base = _modes_result(argv, 0)
+            got = _modes_result(argv, idx)
+            if got != base:
+                diff = sorted(p for p in set(got[0]) | set(base[0]) if got[0].get(p) != base[0].get(p))
+                why = "attribution depends on the iteration order of the mode/pass sets: platforms %s differ" % diff
+        except Exception as e:
+            why = "exception " + repr(e)
+    if P.get("_replay"):
+        LAST.update(argv=argv, set_order=idx, why=why)
+    return why is None
+
+
 def check_metrics(params):
     """E2: every insertion order of the table gives the same metric value, for all counts"""
     import time
@@ -584,6 +672,8 @@ def obligations(tier, known):
         obs.append(Ob(id="metrics-float/table%d" % i, kind="ch", module=__name__, func="h_float", params=dict(table=i), timeout=300,
                       group="metrics"))
     obs.append(Ob(id="dup/orders", kind="ch", module=__name__, func="h_dup", params={}, timeout=300, group="dup"))
+    for i in range(len(MODES_ARGV)):
+        obs.append(Ob(id="modes/argv%d" % i, kind="ch", module=__name__, func="h_modes", params=dict(argv=i), timeout=300, group="modes"))
     from vp.harness import c07
 
     shapes = [(2, s) for s in c07._shapes(2) if len(s) == 3] + [(3, s) for s in c07._shapes(3) if len(s) == 4][:: (6 if tier == "quick" else 2)]
